@@ -221,6 +221,95 @@ def check_placement(ctx: Ctx) -> None:
     ctx.ob("16.3-placement", cname(BA, "BaseGradientApproximator", "generate_perturbations"), ok, "without a subset all the components are differentiated, in order", node=(dflt or [h])[0])
 
 
+def _signed_step(e: ast.AST) -> int | None:
+    if dotted(e) == "step":
+        return 1
+    if isinstance(e, ast.UnaryOp) and isinstance(e.op, ast.USub) and dotted(e.operand) == "step":
+        return -1
+    if isinstance(e, ast.Constant) and e.value == 0:
+        return 0
+    return None
+
+
+def _exceeds(func: ast.AST, test: ast.AST, bound: str, sign: int) -> bool | None:
+    """True if `test` is (equivalent to) "x + sign*step lies beyond the bound", False if it is its negation.
+
+    Subscripted arrays are taken component-wise: `a[...]` is the symbol `a`; single-definition locals are inlined.
+    """
+    import sympy as sp
+
+    defs = {}
+    for st in stmts_of(func):
+        if isinstance(st, ast.Assign) and isinstance(st.targets[0], ast.Name):
+            defs.setdefault(st.targets[0].id, []).append(st.value)
+
+    def term(e, depth=0):
+        if isinstance(e, ast.Subscript):
+            return term(e.value, depth)
+        if isinstance(e, ast.Name):
+            if e.id not in ("step", bound, "lower_bounds", "upper_bounds") and len(defs.get(e.id, ())) == 1 and depth < 3 and isinstance(defs[e.id][0], (ast.BinOp, ast.Subscript, ast.Name)):
+                return term(defs[e.id][0], depth + 1)
+            return sp.Symbol("x" if e.id in ("input_perturbations", "input_values") else e.id, real=True)
+        if isinstance(e, ast.Constant) and isinstance(e.value, (int, float)):
+            return sp.nsimplify(e.value)
+        if isinstance(e, ast.UnaryOp) and isinstance(e.op, ast.USub):
+            v = term(e.operand, depth)
+            return None if v is None else -v
+        if isinstance(e, ast.BinOp) and isinstance(e.op, (ast.Add, ast.Sub)):
+            l, r = term(e.left, depth), term(e.right, depth)
+            return None if l is None or r is None else (l + r if isinstance(e.op, ast.Add) else l - r)
+        return None
+
+    negate = False
+    while isinstance(test, ast.UnaryOp) and isinstance(test.op, ast.Not):
+        test, negate = test.operand, not negate
+    if isinstance(test, ast.Name) and len(defs.get(test.id, ())) == 1:
+        test = defs[test.id][0]
+    if not (isinstance(test, ast.Compare) and len(test.ops) == 1):
+        return None
+    l, r = term(test.left), term(test.comparators[0])
+    if l is None or r is None:
+        return None
+    x, step, ub = sp.Symbol("x", real=True), sp.Symbol("step", real=True), sp.Symbol(bound, real=True)
+    d = sp.simplify(l - r - sign * ((x + sign * step) - ub))
+    op = type(test.ops[0])
+    res = None
+    if d == 0:  # l - r == sign * (forward point - bound)
+        res = True if op in (ast.Gt, ast.GtE) else (False if op in (ast.Lt, ast.LtE) else None)
+    elif sp.simplify(l - r + sign * ((x + sign * step) - ub)) == 0:
+        res = True if op in (ast.Lt, ast.LtE) else (False if op in (ast.Gt, ast.GtE) else None)
+    if res is None:
+        return None
+    return (not res) if negate else res
+
+
+def check_flip_centered(ctx: Ctx) -> None:
+    """16.4 for centered differences: a side whose point would leave the design space is not taken."""
+    f = ctx.index.method(CD, "CenteredDifferences", "_generate_perturbations")
+    con = cname(CD, "CenteredDifferences", "_generate_perturbations")
+    wh = [s_ for s_ in stmts_of(f) if isinstance(s_, ast.Assign) and isinstance(s_.value, ast.Call) and last_attr(s_.value) == "where" and len(s_.value.args) == 3]
+    sides = {}
+    for w in wh:
+        c, a, b = w.value.args
+        for bound, sign in (("upper_bounds", 1), ("lower_bounds", -1)):
+            e = _exceeds(f, c, bound, sign)
+            if e is True and _signed_step(a) == 0 and _signed_step(b) == sign:
+                sides[bound] = w
+            elif e is False and _signed_step(b) == 0 and _signed_step(a) == sign:
+                sides[bound] = w
+    ctx.ob("16.4-flip", con, "upper_bounds" in sides, "the forward point x + step is taken only where it does not exceed the upper bound (step 0 there)", node=(wh or [f])[0], stmt="forward side dropped iff x + step > upper bound")
+    ctx.ob("16.4-flip", con, "lower_bounds" in sides, "the backward point x - step is taken only where it does not go below the lower bound (step 0 there)", node=(wh or [f])[-1], stmt="backward side dropped iff x - step < lower bound")
+    # the bounds compared with the differentiated components are those of the same components
+    for w in wh:
+        c = w.value.args[0]
+        if isinstance(c, ast.Compare):
+            sides_ = [c.left, c.comparators[0]]
+            idx = [any(isinstance(n_, ast.Name) and n_.id == "input_indices" for n_ in ast.walk(x_)) for x_ in sides_]
+            has_bound = [bool({"upper_bounds", "lower_bounds"} & names_in(x_)) for x_ in sides_]
+            ok = all(i_ for i_, hb in zip(idx, has_bound) if hb) and any(has_bound)
+            ctx.ob("16.1-kinds", con, ok, "the differentiated components (one per perturbation) are compared with the bounds of ALL the components: for a subset of components the shapes do not match", node=w, stmt=f"bounds of the differentiated components in `{norm_stmt(c, 60)}`")
+
+
 def check_flip(ctx: Ctx) -> None:
     f = ctx.index.method(FD, "FirstOrderFD", "_generate_perturbations")
     con = cname(FD, "FirstOrderFD", "_generate_perturbations")
@@ -228,11 +317,10 @@ def check_flip(ctx: Ctx) -> None:
     wh = [s for s in stmts_of(f) if isinstance(s, ast.Assign) and isinstance(s.value, ast.Call) and last_attr(s.value) == "where" and len(s.value.args) == 3]
     ctx.need(len(wh) == 1, "FirstOrderFD._generate_perturbations: where(...) flip not found")
     c, a, b = wh[0].value.args
-    cp = compare_parts(c)
-    ok = cp is not None and cp[1] in (ast.GtE,) and "upper_bounds" in names_in(cp[2]) and isinstance(a, ast.UnaryOp) and isinstance(a.op, ast.USub) and dotted(a.operand) == "step" and dotted(b) == "step"
-    if not ok and cp is not None and cp[1] is ast.LtE and "upper_bounds" in names_in(cp[0]):
-        ok = isinstance(a, ast.UnaryOp) and dotted(a.operand) == "step" and dotted(b) == "step"
-    ctx.ob("16.4-flip", con, ok, "the step must be -step where the component is at (or above) its upper bound and +step elsewhere: otherwise a perturbed point leaves the design space", node=wh[0])
+    ok = _exceeds(f, c, "upper_bounds", +1) is True and _signed_step(a) == -1 and _signed_step(b) == 1
+    if not ok:
+        ok = _exceeds(f, c, "upper_bounds", +1) is False and _signed_step(a) == 1 and _signed_step(b) == -1
+    ctx.ob("16.4-flip", con, ok, "the step must be -step exactly where the FORWARD point x + step would exceed the upper bound, and +step elsewhere: testing only `x >= ub` lets a component closer to the bound than the step leave the design space", node=wh[0], stmt="flip iff x + step > upper bound")
     add = [s for s in stmts_of(f) if isinstance(s, ast.AugAssign) and isinstance(s.op, ast.Add) and dotted(s.value) == dotted(wh[0].targets[0])]
     ok = len(add) == 1 and cfg.reachable(cfg.node_of(wh[0]), cfg.node_of(add[0]))
     ctx.ob("16.4-flip", con, ok, "the flipped steps are the ones added to the perturbed components", node=(add or [wh[0]])[0])
@@ -254,10 +342,14 @@ def run(ctx: Ctx) -> None:
     check_twins(ctx)
     check_placement(ctx)
     check_flip(ctx)
+    check_flip_centered(ctx)
 
 
 # ---------------------------------------------------------------------------
 WITNESSES = [
+    {"name": "flip-only-on-the-bound", "file": FD, "old": "            input_perturbations[input_indices, range(n_indices)] + step\n            > upper_bounds[input_indices],", "new": "            input_perturbations[input_indices, range(n_indices)]\n            >= upper_bounds[input_indices],", "expect": "16.4"},
+    {"name": "centered-forward-side-only-on-the-bound", "file": CD, "old": "            input_perturbations[input_indices, range(n_indices)] + step\n            > upper_bounds[input_indices],", "new": "            input_perturbations[input_indices, range(n_indices)]\n            >= upper_bounds[input_indices],", "expect": "16.4"},
+    {"name": "centered-bounds-of-all-components", "file": CD, "old": "            < lower_bounds[input_indices],", "new": "            < lower_bounds,", "expect": "16."},
     {"name": "complex-step-diagonal-index", "file": CS, "old": "            gradient.append(perturbated_output.imag / step[perturbation_index])", "new": "            gradient.append(\n                perturbated_output.imag\n                / input_perturbations[perturbation_index, perturbation_index].imag\n            )", "expect": "16."},
     {"name": "complex-step-steps-not-restricted", "file": CS, "old": "        if isinstance(step, ndarray):\n            # One step per input component: keep the ones of the differentiated ones.\n            step = step[input_indices]\n\n        # One step per perturbation.", "new": "        # One step per perturbation.", "expect": "16.1"},
     {"name": "fd-bounds-not-restricted", "file": FD, "old": "            >= upper_bounds[input_indices],", "new": "            >= upper_bounds,", "expect": "16.1"},
@@ -278,6 +370,8 @@ WITNESSES = [
     {"name": "unflipped-steps-returned", "file": FD, "old": "        return input_perturbations, steps", "new": "        return input_perturbations, step", "expect": "16.4"},
 ]
 TWINS = [
+    {"name": "flip-test-mirrored", "file": FD, "old": "            input_perturbations[input_indices, range(n_indices)] + step\n            > upper_bounds[input_indices],\n            -step,\n            step,", "new": "            upper_bounds[input_indices] - step\n            < input_perturbations[input_indices, range(n_indices)],\n            -step,\n            step,"},
+    {"name": "flip-branches-swapped", "file": FD, "old": "            input_perturbations[input_indices, range(n_indices)] + step\n            > upper_bounds[input_indices],\n            -step,\n            step,", "new": "            input_perturbations[input_indices, range(n_indices)] + step\n            <= upper_bounds[input_indices],\n            step,\n            -step,"},
     {"name": "rename-perturbation-index", "file": CS, "old": "perturbation_index", "new": "k", "count": 0},
     {"name": "flip-mirrored-comparison", "file": FD, "old": "            input_perturbations[input_indices, range(n_indices)]\n            >= upper_bounds[input_indices],", "new": "            upper_bounds[input_indices]\n            <= input_perturbations[input_indices, range(n_indices)],"},
 ]
